@@ -10,7 +10,7 @@
 (***************************************************************************)
 EXTENDS DKGProps, Json, SequencesExt, FiniteSetsExt
 
-CONSTANTS MaxRej, Emit, AccuseAny, Windows, Partial
+CONSTANTS MaxRej, Emit, AccuseAny, Windows, Partial, MaxReload
 
 VARIABLES st, g, last, hist
 vars == <<st, g, last, hist>>
@@ -31,6 +31,7 @@ AlphabetSet ==
         {Op("bapol", b, f) : f \in Assign(IF AccuseAny THEN K \ {b} ELSE Honest, {"ok", "bad"})}
       : b \in Byz} \cup
     {Op("post", k, BlankVals) : k \in Honest} \cup
+    (IF MaxReload > 0 THEN {Op("reload", k, BlankVals) : k \in Honest} ELSE {}) \cup
     {Op("end", 0, BlankVals)}
 
 Alphabet == SetToSeq(AlphabetSet)
@@ -43,7 +44,7 @@ Init == st = InitState /\ g = GhostInit /\ last = 0 /\ hist = <<>>
 
 Step(i) ==
     LET o == Alphabet[i] IN
-    /\ OpEnabled(st, o, MaxRej, Windows)
+    /\ OpEnabled(st, o, MaxRej, Windows, MaxReload)
     /\ LET x == ApplyOp(st, o) IN
        /\ st' = x.st
        /\ g' = GhostNext(g, st, o, x.out)
